@@ -248,9 +248,16 @@ impl BitRepr for StreamInfo {
             .map_err(OutputError::<S>::from_sink)?;
         dest.write::<u16>(self.max_block_size() as u16)
             .map_err(OutputError::<S>::from_sink)?;
-        dest.write_lsbs(self.min_frame_size() as u32, 24)
+        // Without any frame, the bounds still hold their initial values
+        // (`u32::MAX` and `0`); "unknown" is encoded as zero in STREAMINFO.
+        let (min_frame_size, max_frame_size) = if self.min_frame_size() > self.max_frame_size() {
+            (0, 0)
+        } else {
+            (self.min_frame_size(), self.max_frame_size())
+        };
+        dest.write_lsbs(min_frame_size as u32, 24)
             .map_err(OutputError::<S>::from_sink)?;
-        dest.write_lsbs(self.max_frame_size() as u32, 24)
+        dest.write_lsbs(max_frame_size as u32, 24)
             .map_err(OutputError::<S>::from_sink)?;
         dest.write_lsbs(self.sample_rate() as u32, 20)
             .map_err(OutputError::<S>::from_sink)?;
